@@ -87,7 +87,7 @@ CHECKS = {
     engine="capcheck",
     technique="relational abstract interpretation of the cursor/budget idiom: linear loop equalities (null space of header-phi increments), lock-step and range candidates proved by induction (Houdini), dominating branch guards, Fourier-Motzkin entailment of 0 <= off and off + size <= declared capacity for every write",
     category="other",
-    text="For every size relation and content at once: each store, memset/memcpy/memmove, libc writer and clearing/moving helper call in all 243 function definitions carries the obligation that the written range lies inside the buffer's declared capacity (caller's dmax under the truthfulness premise, local arrays, globals). 497 of 632 obligations are discharged (constant-offset accesses the relational domain cannot settle because of correlated branches get a path-sensitive second opinion); undischarged ones are known findings (40 + 5 no-slack, genuine), listed reach limits (95 obligations in functions the domain cannot treat: unrolled primitives, smoothsort, Unicode tables, second-pass scans) or violations. Both object-size branches are in the IR and covered; the thorough tier repeats the analysis on the no-slack configuration (an access identical to one of the default build is the same finding).",
+    text="For every size relation and content at once: each store, memset/memcpy/memmove, libc writer and clearing/moving helper call in all 243 function definitions carries the obligation that the written range lies inside the buffer's declared capacity (caller's dmax under the truthfulness premise, local arrays, globals). 497 of 632 obligations are discharged (constant-offset accesses the relational domain cannot settle because of correlated branches get a path-sensitive second opinion); undischarged ones are known findings (40 + 5 no-slack, genuine), listed reach limits (95 obligations in functions the domain cannot treat: unrolled primitives, smoothsort, Unicode tables, second-pass scans) or violations. The truthfulness premise is followed to the API boundary: for the 113 public wrapper macros (preprocessor macro table of the public headers against the callee's parameter names) every object-size parameter receives BOS() of the macro parameter that is passed as the operand it describes, and same-named parameters are forwarded unswapped. Both object-size branches are in the IR and covered; the thorough tier repeats the analysis on the no-slack configuration (an access identical to one of the default build is the same finding).",
     design_ref="DESIGN.md §3.2, §4 C01",
     note=TB + "; truthfulness premise; unsigned wrap-around ignored; functions in tables/cap_reach.json are not analysed and not claimed"),
  "C02": dict(
